@@ -17,7 +17,7 @@ META = dict(
     decides='boundedness and non-emptiness invariant of the history for every history-size; single increment per change',
     undecided='arithmetic inside VecDeque; Serial::add wrap-around',
     trusted_base=['rustc MIR construction + callee resolution', 'VecDeque push_front/pop_back/truncate semantics (modelled)'],
-    rules=['K3 queue writers', 'K1 push only on change', 'abstract interpretation of push_delta over (len, keep)'],
+    rules=['K13 construct numbers serial+1 / merge keeps the newer serial', 'K3 queue writers', 'K1 push only on change', 'abstract interpretation of push_delta over (len, keep)'],
 )
 
 
@@ -56,6 +56,28 @@ def rule_writers(ctx):
     sb = ctx.body('payload::history::PayloadHistory::serial')
     ok = any('front' in s.callee for s in sb.calls('VecDeque::front')) and 'deltas' in arg_path(sb.calls('VecDeque::front')[0], 0)
     ctx.check(ok, 'K3', 'serial=front-delta', 'serial() is the serial of deltas.front()', 'serial() is no longer derived from deltas.front()')
+
+
+def rule_serial_step(ctx):
+    """The delta built for a change carries serial+1 (and merge keeps the newer serial)."""
+    from lib.rules import agg_sites
+    from lib.tables import describe
+    b = ctx.body('payload::delta::PayloadDelta::construct')
+    lits = agg_sites(b, 'payload::delta::PayloadDelta')
+    ctx.floor('K13', 'PayloadDelta literal in construct', len(lits), 1)
+    for l in lits:
+        rv = l.stmt['rv']
+        d = describe(b.origin_of_operand(rv['ops'][rv['names'].index('serial')]))
+        ctx.check(bool(re.match(r'^call:Serial::add\(serial,const\(1\)\)$', d)), 'K13', 'construct:serial=serial+1',
+                  'a new delta is numbered current serial + 1',
+                  'PayloadDelta::construct numbers the new delta `%s` instead of serial.add(1): the serial does not advance by exactly '
+                  'one per change (clients at the old serial are told nothing changed, or serials are skipped)' % d, loc=l.loc())
+    m = ctx.body('payload::delta::PayloadDelta::merge')
+    for l in agg_sites(m, 'payload::delta::PayloadDelta'):
+        rv = l.stmt['rv']
+        d = describe(m.origin_of_operand(rv['ops'][rv['names'].index('serial')]))
+        ctx.check(d == 'new.serial', 'K13', 'merge:serial=newer', 'a merged delta carries the newer serial',
+                  'PayloadDelta::merge numbers the merged delta `%s` instead of new.serial' % d, loc=l.loc())
 
 
 def rule_abstract(ctx):
@@ -150,4 +172,4 @@ def rule_abstract(ctx):
         ctx.check(s.callee.endswith('pop_back'), 'AI', 'push_delta:evicts-oldest', 'eviction removes the oldest (back)', 'eviction removes the newest', loc=s.loc())
 
 
-RULES = [rule_writers, rule_abstract]
+RULES = [rule_serial_step, rule_writers, rule_abstract]
